@@ -22,7 +22,7 @@ func runC08(p *Prog, r *Report) {
 	if bs.OK() {
 		body := fanoutLoop(p, r, R, "xbus.SendMsg", bs.fn, "recv.pipes")
 		var snd, cl Sel
-		for _, e := range bs.evs {
+		for _, e := range bs.All() {
 			if e.Kind == "select-send" && strings.HasSuffix(e.What, ".sendQ") {
 				snd = append(snd, e)
 			}
@@ -46,10 +46,10 @@ func runC08(p *Prog, r *Report) {
 		}
 		r.Check(skip(snd) && skip(cl) && snd[0].Args[0] == "φm" && len(snd[0].Args) == 2 && snd[0].Args[1] == "nonblocking", R, "never-back-to-source", snd.Pos(p), "a copy is queued only for pipes whose id differs from the source id", "a forwarded message can be sent back on the pipe it came from (the send is not guarded by p.p.ID() != id): "+guardsOf(snd))
 		if len(snd) == 1 {
-			fanoutNoBypass(p, r, R, "xbus.SendMsg", snd[0].In, func(a string) bool { return strings.HasSuffix(a, ".p.ID() == φid") }, " (skipped only for the source pipe)")
+			fanoutNoBypass(p, r, R, "xbus.SendMsg", snd[0], func(a string) bool { return strings.HasSuffix(a, ".p.ID() == φid") }, " (skipped only for the source pipe)")
 		}
 		if body != nil && len(snd) == 1 {
-			r.Check(body[snd[0].In.Block()], R, "send-inside-loop", snd.Pos(p), "inside the loop over all pipes", "the send is outside the loop over the pipes")
+			r.Check(inBody(body, snd[0]), R, "send-inside-loop", snd.Pos(p), "inside the loop over all pipes", "the send is outside the loop over the pipes")
 		}
 		// id := 0 unless len(Header)==4 then Uint32(Header)
 		var idphi *ssa.Phi
@@ -76,7 +76,7 @@ func runC08(p *Prog, r *Report) {
 		r.Check(len(mu) == 1 && mu.AllGuarded("len(arg1.Header) == 4"), R, "forwarded-made-unique", mu.Pos(p), "a forwarded message is made unique before its header is rewritten", "a forwarded message's header is rewritten without MakeUnique")
 		var fin Sel
 		for _, e := range bs.Ev("call", "mangos.(*Message).Free") {
-			if body != nil && !body[e.In.Block()] {
+			if body != nil && !inBody(body, e) {
 				fin = append(fin, e)
 			}
 		}
@@ -100,7 +100,7 @@ func runC08(p *Prog, r *Report) {
 	}
 	if f := q.Fn(R, "protocol/bus", "socket", "RecvMsg"); f.OK() {
 		n := 0
-		for _, e := range f.evs {
+		for _, e := range f.All() {
 			if e.Kind == "call" && strings.HasSuffix(e.What, ".SendMsg") {
 				n++
 			}
@@ -114,7 +114,7 @@ func runC08(p *Prog, r *Report) {
 	if sr.OK() {
 		body := fanoutLoop(p, r, R, "xstar.receiver", sr.fn, "recv.s.pipes")
 		var snd Sel
-		for _, e := range sr.evs {
+		for _, e := range sr.All() {
 			if e.Kind == "select-send" && strings.HasSuffix(e.What, ".sendq") {
 				snd = append(snd, e)
 			}
@@ -130,13 +130,13 @@ func runC08(p *Prog, r *Report) {
 		}
 		r.Check(ok, R, "not-back-to-source-own-copy", snd.Pos(p), "forwarded (as a private Dup) to every pipe p2 != p", "the STAR forwarder does not send a private copy to every pipe other than the arrival pipe: "+argsOf(snd)+" "+guardsOf(snd))
 		if len(snd) == 1 {
-			fanoutNoBypass(p, r, R, "xstar.receiver", snd[0].In, func(a string) bool { return strings.HasSuffix(a, "== recv") }, " (skipped only for the arrival pipe)")
+			fanoutNoBypass(p, r, R, "xstar.receiver", snd[0], func(a string) bool { return strings.HasSuffix(a, "== recv") }, " (skipped only for the arrival pipe)")
 		}
 		if body != nil && len(snd) == 1 {
-			r.Check(body[snd[0].In.Block()], R, "forward-inside-loop", snd.Pos(p), "inside the loop over all pipes", "forwarding is outside the loop")
+			r.Check(inBody(body, snd[0]), R, "forward-inside-loop", snd.Pos(p), "inside the loop over all pipes", "forwarding is outside the loop")
 		}
 		var up Sel
-		for _, e := range sr.evs {
+		for _, e := range sr.All() {
 			if e.Kind == "select-send" && strings.HasSuffix(e.What, "recvq") {
 				up = append(up, e)
 			}
@@ -148,7 +148,7 @@ func runC08(p *Prog, r *Report) {
 	if ss.OK() {
 		body := fanoutLoop(p, r, R, "xstar.SendMsg", ss.fn, "recv.pipes")
 		fanoutBalanced(p, r, R, "xstar.SendMsg", ss, body, "arg1", ".sendq")
-		for _, e := range ss.evs {
+		for _, e := range ss.All() {
 			if e.Kind == "select-send" {
 				r.Check(hasAtom(e.Guard, "len(arg1.Header) == 4"), R, "xstar.SendMsg/needs-header", p.InstrPos(e.In), "only messages with the 4-byte hop header are sent", "raw STAR sends a message without the 4-byte header")
 			}
